@@ -29,7 +29,7 @@ type PairCase struct {
 	Wrappers []Wrapper
 }
 
-var reCaseFlag = regexp.MustCompile(`(?s)<<\s*"(DIVERGED|BUILDER)",\s*(\d+),\s*"([^"]+)"`)
+var reCaseFlag = regexp.MustCompile(`(?s)<<\s*"(DIVERGED|BUILDER)",\s*(\d+),\s*"([^"]+)"(.*?)>>`)
 
 // runPairCases evaluates a pairing spec (Poryswitch / Constants / ...) on cases.
 func runPairCases(c *Ctx, module, dataFile string, recs []map[string]interface{}) (map[string]string, int64, bool) {
@@ -60,7 +60,7 @@ func runPairCases(c *Ctx, module, dataFile string, recs []map[string]interface{}
 				c.Fatal("the harness built case %s inconsistently with the spec", m[3])
 				continue
 			}
-			bad[m[3]] = m[1]
+			bad[m[3]] = strings.Join(strings.Fields(m[1]+" "+m[4]), " ")
 		}
 	}
 	return bad, states, true
